@@ -41,8 +41,19 @@ type VdrSpec struct {
 	Adversarial   bool    `json:"adversarial"`
 	LateConsumers bool    `json:"late"` // consumers are finished as late as possible
 	TimeoutS      int     `json:"timeout_s"`
-	NoExtra       bool    `json:"no_extra"` // stages write nothing beyond what their outputs name (and tmp files)
+	NoExtra       bool    `json:"no_extra"`   // stages write nothing beyond what their outputs name (and tmp files)
+	FailChunk     bool    `json:"fail_chunk"` // the first chunk of a volatile splitting stage fails once; mrp is restarted (retry)
+	// the pipestance directory is reached through a symbolic link, and stages
+	// report some of their files by their canonical (fully resolved) path
+	LinkedRoot bool `json:"linked_root"`
 }
+
+// With a linked root: the canonical spelling of the pipestance directory and
+// the spelling mrp uses; paths found in JSON are brought to the latter.
+var vdrAliasFrom, vdrAliasTo string
+
+// every entry (not only links) carries its other logical names
+var vdrAllAlts bool
 
 type vdrEnt struct {
 	Kind string `json:"k"` // f d l
@@ -51,26 +62,13 @@ type vdrEnt struct {
 	// starts at the link reports) and the link text
 	Follow int64  `json:"f,omitempty"`
 	Dest   string `json:"d,omitempty"`
+	// the other logical names getLogicalFileNames gives for the link
+	Alts []string `json:"a,omitempty"`
 }
 
-// walkRootLink: a symbolic link directly below a job's files/ or tmp/
-// directory.  The VDR code walks every such child with util.Walk, which opens
-// (and thereby follows) its root.
-func walkRootLink(rel string, e vdrEnt) bool {
-	if e.Kind != "l" {
-		return false
-	}
-	base := path.Base(path.Dir(rel))
-	return base == "files" || base == "tmp"
-}
-
-// sizeAsWalked: the size the VDR code records for the entry.
-func sizeAsWalked(rel string, e vdrEnt) int64 {
-	if walkRootLink(rel, e) {
-		return e.Follow
-	}
-	return e.Size
-}
+// sizeAsWalked: the size the VDR code records for the entry (a symbolic
+// link is an entry of its own size; Walk does not follow it).
+func sizeAsWalked(rel string, e vdrEnt) int64 { return e.Size }
 
 // VdrViolation is a monitor failure found by the worker.
 type VdrViolation struct {
@@ -89,6 +87,9 @@ type VdrModelCheck struct {
 	Req    []string `json:"req"`
 	Expect string   `json:"expect"`
 	What   string   `json:"what"`
+	// compare only what happened to the disk and the report (the bookkeeping
+	// maps are rebuilt when mrp restarts)
+	DiskOnly bool `json:"disk_only,omitempty"`
 }
 
 type VdrResult struct {
@@ -116,6 +117,8 @@ type vdrRun struct {
 	res     *VdrResult
 	psdir   string
 	outside map[string]string // sentinel path -> content
+	extDir  string            // a directory with data outside the pipestance
+	extFile string            // a file outside the pipestance
 	// every entry ever seen below a job's files/ or tmp/ directory
 	// (relative path -> kind/size at first sighting)
 	ever map[string]vdrEnt
@@ -138,6 +141,8 @@ type vdrRun struct {
 	lastDone    map[string]bool
 	preNames    map[string]vdrArgNames // fork dir -> names per argument at the pre-final snapshot
 	stageOfNode map[string]*syntax.Stage
+	faultSet    bool
+	retried     bool
 }
 
 type vdrSnapshot struct {
@@ -192,11 +197,27 @@ func lstatTree(root string) map[string]vdrEnt {
 			if st, err := os.Stat(p); err == nil {
 				e.Follow = st.Size()
 			}
+			for _, n := range core.VerifLogicalFileNames(p) {
+				if n != p {
+					e.Alts = append(e.Alts, n)
+				}
+			}
 			out[rel] = e
 		case info.IsDir():
 			out[rel] = vdrEnt{Kind: "d", Size: info.Size()}
 		default:
 			out[rel] = vdrEnt{Kind: "f", Size: info.Size()}
+		}
+		if vdrAllAlts && info.Mode()&os.ModeSymlink == 0 {
+			if _, _, ok := stageRegion(rel); ok {
+				e := out[rel]
+				for _, n := range core.VerifLogicalFileNames(p) {
+					if n != p {
+						e.Alts = append(e.Alts, n)
+					}
+				}
+				out[rel] = e
+			}
 		}
 		return nil
 	})
@@ -273,7 +294,22 @@ func (v *vdrRun) snapshot(full bool) *vdrSnapshot {
 // observe: after a step (behind a storage barrier): which entries went away,
 // and is each removal allowed (C04 safety: nothing that an unfinished
 // consumer or the top level still names).
+// checkOutside: the data outside the pipestance directory is as it was.
+func (v *vdrRun) checkOutside(key, by string) {
+	for p, c := range v.outside {
+		if b, err := os.ReadFile(p); err != nil || string(b) != c {
+			v.violate("C14", "property", key,
+				fmt.Sprintf("%s (outside the pipestance directory %s) was removed or changed %s", p, v.psdir, by), nil)
+			v.outside[p] = string(b) // report once
+			if err != nil {
+				delete(v.outside, p)
+			}
+		}
+	}
+}
+
 func (v *vdrRun) observe(duringReset bool) {
+	v.checkOutside("C14:outside-touched", "while the pipestance ran")
 	tree := lstatTree(v.psdir)
 	seq := len(v.r.Events)
 	var newly []string
@@ -357,6 +393,9 @@ func pathsInJSON(b []byte, prefix string) []string {
 	keys(val)
 	var out []string
 	for _, s := range ss {
+		if vdrAliasFrom != "" && strings.HasPrefix(s, vdrAliasFrom+"/") {
+			s = vdrAliasTo + s[len(vdrAliasFrom):]
+		}
 		if strings.HasPrefix(s, prefix+"/") {
 			out = append(out, path.Clean(s))
 		}
@@ -371,7 +410,23 @@ func pathsInJSON(b []byte, prefix string) []string {
 func (v *vdrRun) outsHook(job *TAJob, outs map[string]interface{}) {
 	r := v.r
 	stage, _ := r.Ast.Callables.Table[job.StageName].(*syntax.Stage)
-	if stage == nil || job.ShellName == "split" {
+	if stage == nil {
+		return
+	}
+	if job.ShellName == "split" {
+		// the split leaves data in its temp directory
+		td := path.Join(job.MetadataPath, "tmp")
+		if st, err := os.Stat(td); err == nil && st.IsDir() {
+			for i := 0; i < 2; i++ {
+				p := path.Join(td, fmt.Sprintf("split_%d.tmp", i))
+				c := fmt.Sprintf("split tmp %d %s", i, job.Key)
+				if os.WriteFile(p, []byte(c), 0o644) == nil {
+					r.Written[p] = c
+					v.writtenBy[v.rel(p)] = job.Key
+					v.tmpFiles[v.rel(p)] = true
+				}
+			}
+		}
 		return
 	}
 	write := func(p, content string) bool {
@@ -400,7 +455,31 @@ func (v *vdrRun) outsHook(job *TAJob, outs map[string]interface{}) {
 		}
 		switch {
 		case p.Tname.Tname == syntax.KindString && p.Tname.ArrayDim == 0 && p.Tname.MapDim == 0:
-			switch rng.Intn(5) {
+			switch rng.Intn(8) {
+			case 7: // the data is in files/data_x, files/current_x -> data_x, the output goes through the link
+				real := path.Join(job.FilesPath, "data_"+p.Id, "part.txt")
+				lnk := path.Join(job.FilesPath, "current_"+p.Id)
+				if write(real, "aliased "+job.Key+" "+p.Id) {
+					os.Remove(lnk)
+					if os.Symlink("data_"+p.Id, lnk) == nil {
+						outs[p.Id] = lnk + "/part.txt"
+						v.hist("shape-output-through-linked-directory")
+					}
+				}
+			case 5: // files/extref -> a directory OUTSIDE the pipestance; the output names one file through the link
+				lnk := path.Join(job.FilesPath, "extref_"+p.Id)
+				os.Remove(lnk)
+				if os.Symlink(v.extDir, lnk) == nil {
+					outs[p.Id] = lnk + "/y.txt"
+					v.hist("shape-output-through-link-to-external-dir")
+				}
+			case 6: // the output names a link to a FILE outside the pipestance
+				lnk := path.Join(job.FilesPath, "extf_"+p.Id+".lnk")
+				os.Remove(lnk)
+				if os.Symlink(v.extFile, lnk) == nil {
+					outs[p.Id] = lnk
+					v.hist("shape-output-link-to-external-file")
+				}
 			case 4: // the output names a symbolic link to data kept elsewhere below files/
 				real := path.Join(job.FilesPath, "real_"+p.Id, "data.bin")
 				lnk := path.Join(job.FilesPath, "lnk_"+p.Id+".dat")
@@ -442,15 +521,61 @@ func (v *vdrRun) outsHook(job *TAJob, outs map[string]interface{}) {
 			}
 		}
 	}
+	// a stage that canonicalises its paths (os.path.realpath) while the
+	// pipestance is reached through a symbolic link
+	if vdrAliasFrom != "" {
+		rr := rand.New(rand.NewSource(int64(hash64("vdr-realpath", job.Key))))
+		var canon func(x interface{}) interface{}
+		canon = func(x interface{}) interface{} {
+			switch t := x.(type) {
+			case string:
+				if strings.HasPrefix(t, vdrAliasTo+"/") && rr.Intn(2) == 0 {
+					v.hist("shape-output-by-canonical-path")
+					return vdrAliasFrom + t[len(vdrAliasTo):]
+				}
+				return t
+			case []interface{}:
+				for i := range t {
+					t[i] = canon(t[i])
+				}
+				return t
+			case map[string]interface{}:
+				for k := range t {
+					t[k] = canon(t[k])
+				}
+				return t
+			}
+			return x
+		}
+		for k := range outs {
+			outs[k] = canon(outs[k])
+		}
+	}
 	// unreferenced material: a directory tree under files/ and files in tmp/
 	rng := rand.New(rand.NewSource(int64(hash64("vdr-extra", job.Key))))
 	if rng.Intn(2) == 0 && !v.spec.NoExtra {
 		write(path.Join(job.FilesPath, "scratchdir", "a", "x.bin"), "x "+job.Key)
 		write(path.Join(job.FilesPath, "scratchdir", "y.bin"), "y "+job.Key)
 	}
+	if rng.Intn(3) == 0 && !v.spec.NoExtra {
+		// links nobody names, to a directory and to a file outside the pipestance
+		a, b := path.Join(job.FilesPath, "extdir_unref"), path.Join(job.FilesPath, "extfile_unref")
+		os.Remove(a)
+		os.Remove(b)
+		if os.Symlink(v.extDir, a) == nil && os.Symlink(v.extFile, b) == nil {
+			v.hist("shape-unreferenced-links-to-outside")
+		}
+	}
 	if rng.Intn(3) != 0 {
 		td := path.Join(job.MetadataPath, "tmp")
 		if st, err := os.Stat(td); err == nil && st.IsDir() {
+			if rng.Intn(3) == 0 {
+				os.Remove(path.Join(td, "extdir"))
+				os.Remove(path.Join(td, "extf"))
+				if os.Symlink(v.extDir, path.Join(td, "extdir")) == nil && os.Symlink(v.extFile, path.Join(td, "extf")) == nil {
+					v.hist("shape-tmp-links-to-outside")
+				}
+			}
 			if write(path.Join(td, "t1.tmp"), "tmp "+job.Key) {
 				v.tmpFiles[v.rel(path.Join(td, "t1.tmp"))] = true
 			}
@@ -462,6 +587,13 @@ func (v *vdrRun) outsHook(job *TAJob, outs map[string]interface{}) {
 }
 
 func (v *vdrRun) launchHook(job *TAJob) {
+	if v.spec.FailChunk && !v.faultSet && job.ShellName == "main" {
+		if st, _ := v.r.Ast.Callables.Table[job.StageName].(*syntax.Stage); st != nil && st.Split {
+			v.faultSet = true
+			v.r.Opts.Faults = append(v.r.Opts.Faults, &Fault{JobKey: job.Key, Kind: "errors"})
+			v.hist("chunk-failure-injected")
+		}
+	}
 	ps := pathsInJSON(job.Args, v.psdir)
 	rels := make([]string, 0, len(ps))
 	for _, p := range ps {
@@ -522,6 +654,15 @@ func runVdrSpec(spec *VdrSpec, scratch string) *VdrResult {
 	}
 	opts.OutsHook = v.outsHook
 	opts.FileHook = func(job *TAJob, param string, p string) { v.writtenBy[v.rel(p)] = job.Key }
+	vdrAliasFrom, vdrAliasTo, vdrAllAlts = "", "", false
+	if spec.LinkedRoot {
+		// scratch/volN is the real place, scratch/homeN -> volN the way mrp is told to go
+		vol, _ := os.MkdirTemp(scratch, "vol")
+		home := vol + "_home"
+		if os.Symlink(path.Base(vol), home) == nil {
+			scratch = home
+		}
+	}
 	run, err := NewTARun(spec.Src, scratch, spec.Seed, opts)
 	if err != nil {
 		res.Final = "compile-error"
@@ -531,6 +672,12 @@ func runVdrSpec(spec *VdrSpec, scratch string) *VdrResult {
 	defer run.Close()
 	v.r = run
 	v.psdir = run.PsDir
+	if spec.LinkedRoot {
+		if real, err := filepath.EvalSymlinks(run.PsDir); err == nil && real != run.PsDir {
+			vdrAliasFrom, vdrAliasTo, vdrAllAlts = real, run.PsDir, true
+			v.hist("linked-root")
+		}
+	}
 	run.LaunchHook = v.launchHook
 	// sentinels outside the pipestance directory: a sibling file, and a
 	// sibling directory whose name has the pipestance path as a string prefix
@@ -538,6 +685,16 @@ func runVdrSpec(spec *VdrSpec, scratch string) *VdrResult {
 	for _, s := range []string{path.Join(base, "sentinel.txt"), run.PsDir + "x/inside.txt", run.PsDir + ".bak"} {
 		os.MkdirAll(path.Dir(s), 0o755)
 		c := "sentinel " + path.Base(s)
+		if os.WriteFile(s, []byte(c), 0o644) == nil {
+			v.outside[s] = c
+		}
+	}
+	// data outside the pipestance that stages link to from their files/ and tmp/ directories
+	v.extDir = path.Join(base, "extdata")
+	v.extFile = path.Join(base, "extfile.bin")
+	for _, s := range []string{v.extDir + "/x.txt", v.extDir + "/y.txt", v.extDir + "/sub/z.txt", v.extFile} {
+		os.MkdirAll(path.Dir(s), 0o755)
+		c := "external " + path.Base(s) + strings.Repeat(".", 300)
 		if os.WriteFile(s, []byte(c), 0o644) == nil {
 			v.outside[s] = c
 		}
@@ -611,6 +768,8 @@ func (v *vdrRun) loop() {
 	for len(r.Events) < r.Opts.MaxEvents {
 		if r.Opts.CrashAt != nil && r.Opts.CrashAt[len(r.Events)] {
 			delete(r.Opts.CrashAt, len(r.Events))
+			// storage goroutines of the mrp that is about to die belong to its lifetime
+			time.Sleep(3 * time.Millisecond)
 			r.ps.VerifStorageBarrier()
 			v.observe(false)
 			if err := r.Crash(); err != nil {
@@ -644,8 +803,10 @@ func (v *vdrRun) loop() {
 			r.log("complete", "", string(st))
 			r.ps.VDRKill()
 			r.ps.VerifStorageBarrier()
+			v.checkOutside("C14:outside-touched", "by volatile data removal")
 			v.postKill = v.snapshot(true)
 			r.ps.PostProcess()
+			v.checkOutside("C14:outside-touched-by-postprocess", "by post-processing")
 			v.final = v.snapshot(true)
 			r.ps.Unlock()
 			r.Final = "complete"
@@ -653,6 +814,25 @@ func (v *vdrRun) loop() {
 		}
 		done, progress := r.stepOnce()
 		if done {
+			if r.Final == "failed" && v.spec.FailChunk && v.faultSet && !v.retried {
+				// the operator restarts mrp; the failed chunk is reset and retried
+				v.retried = true
+				r.killPending(0)
+				r.Final, r.ErrMsg = "", ""
+				// the storage goroutines of the mrp that is going away belong to its
+				// lifetime: let them finish before the new one loads the directory
+				time.Sleep(3 * time.Millisecond)
+				r.ps.VerifStorageBarrier()
+				v.observe(false)
+				if err := r.Restart(); err != nil {
+					r.Final = "error:" + err.Error()
+					return
+				}
+				v.observe(true)
+				v.hist("restart-after-chunk-failure")
+				idle = 0
+				continue
+			}
 			return
 		}
 		r.ps.VerifStorageBarrier()
